@@ -256,6 +256,11 @@ def run_c08(tier_: str) -> int:
     branches: dict[str, int] = {}
     payload: dict[tuple[str, int], dict[str, type]] = {}
     samples = 0
+    try:
+        api_table = json.loads((common.VERIF / "pins" / "api_table.json").read_text())
+    except OSError:
+        api_table = None
+        res.inconclusive_because("pins/api_table.json is missing")
     for m in walk.modules():
         if m.type not in ("request", "response"):
             continue
@@ -273,6 +278,18 @@ def run_c08(tier_: str) -> int:
             except AttributeError as exc:
                 res.violation(f"missing-attr:{walk.class_path(cls)}", f"{walk.class_path(cls)} lacks a payload attribute: {exc}", {"class": walk.class_path(cls)})
                 continue
+            # flexibility by Kafka's own table (pinned 3.9.0 definitions), not by the class's word: a class that is wrongly marked
+            # flexible and consistently advertises the flexible header is still advertising the wrong header
+            ent = api_table.get(f"{m.api}:{m.type}") if api_table else None
+            if ent is not None and ent["min"] <= ver <= ent["max"]:
+                res.count("classes_checked_against_pinned_flexibility")
+                pinned_flex = ent["first_flexible"] is not None and ver >= ent["first_flexible"]
+                if pinned_flex != flex:
+                    res.violation(f"flexible-vs-pin:{walk.class_path(cls)}",
+                                  f"{walk.class_path(cls)} (key {key}, v{ver}) says __flexible__={flex}; the pinned Kafka 3.9.0 definition makes v{ver} "
+                                  f"{'flexible' if pinned_flex else 'non-flexible'} (flexibleVersions from {ent['first_flexible']}), so Kafka mandates {expected_header(m.type, key, ver, pinned_flex)}",
+                                  {"class": walk.class_path(cls), "api_key": key, "version": ver, "flexible": flex, "pin": ent})
+                    flex = pinned_flex
             exp = expected_header(m.type, key, ver, flex)
             branch = f"{m.type}:{exp}" + (":api-versions-special-case" if m.type == "response" and key == 18 else "")
             branches[branch] = branches.get(branch, 0) + 1
